@@ -323,6 +323,23 @@ func init() {
 			neg := Ite(up, Sub(Sub(d, r), mm), Sub(d, r))
 			return VInt{ex.nameT(Ite(Lt(d, IntC(0)), neg, pos))}
 		}
+		// (time.Time).Truncate(d): the time rounded down to a multiple of d since the zero time (times are nanoseconds
+		// since the Unix epoch here; the epoch is a multiple of d for every d that divides a day)
+		m["(time.Time).Truncate"] = func(ex *Exec, fr *frame, cc *ssa.CallCommon, a []Value) Value {
+			t, d := ti(a[0]), ti(a[1])
+			if !d.Const {
+				panic(unsupported{"Time.Truncate by a symbolic duration"})
+			}
+			if d.I.Sign() <= 0 {
+				return a[0]
+			}
+			day := new(big.Int).Mul(big.NewInt(86400), big.NewInt(1000000000))
+			if new(big.Int).Mod(day, d.I).Sign() != 0 {
+				panic(unsupported{"Time.Truncate by a duration that does not divide a day"})
+			}
+			_, r := ex.divModPos(ex.nameT(t), d.I)
+			return VInt{ex.nameT(Sub(t, r))}
+		}
 		m["(time.Duration).Seconds"] = func(ex *Exec, fr *frame, cc *ssa.CallCommon, a []Value) Value {
 			panic(unsupported{"Duration.Seconds (float)"})
 		}
